@@ -16,6 +16,7 @@ PROPERTY = "C07"
 LEVEL = "exploration"
 ANCHORS = ["src/pylife/materiallaws/notch_approximation_law.py"]
 SHARDS = {"quick": 4, "thorough": 16}
+SOAK = {"thorough": ["tests/materiallaws", "tests/strength/fkm_nonlinear", "tests/stress/rainflow/test_fkm_nonlinear.py"]}      # contract soak under the repository's own tests
 WATCHDOG = {"quick": 900, "thorough": 3000}
 REQUIRED_CLASSES = {t: ["bins=1", "bins=2", "bins=101", "load_on_edge", "load_ulp_below_edge", "load_ulp_above_edge",
                         "load_zero", "load=+max", "load=-max", "load_above_max", "load_ulp_above_max", "negative_load",
